@@ -804,6 +804,30 @@ class C10(Prop):
                 res.bump(f"failure:{sig}:{cls}")
                 if res.hist[f"failure:{sig}:{cls}"] <= 5:
                     res.failures.append(Failure(signature=f"C10:{sig}:{cls}", what=what, case=case))
+        # the same pair through HTTP2Connection.request(): whatever route a caller string takes into the field
+        # list handed to the h2 layer (pseudo-headers included), it must have passed the same validity test
+        c2 = HTTP2Connection(HOST, 443)
+        sent = []
+        c2.endheaders = lambda message_body=None, **kw: sent.append(list(c2._headers))
+        c2.send = lambda *a, **kw: None
+        for nm in (name, "Host" if name.lower() not in ("host",) else name):
+            del sent[:]
+            try:
+                c2._headers = []
+                c2.request("GET", "/p", headers={nm: value})
+            except Exception:                # noqa: BLE001 - rejected before anything reached the h2 layer
+                continue
+            for fn, fv in (sent[0] if sent else []):
+                fnb = fn if isinstance(fn, bytes) else str(fn).encode("latin-1", "replace")
+                fvb = fv if isinstance(fv, bytes) else str(fv).encode("latin-1", "replace")
+                bad_name = not (H2_NAME_RE.fullmatch(fnb) or fnb in (b":method", b":scheme", b":authority", b":path"))
+                bad_val = any(b in (0, 10, 13) for b in fvb) or fvb[:1] in (b" ", b"\t") or fvb[-1:] in (b" ", b"\t")
+                if bad_name or bad_val:
+                    sig = "h2-request-field:" + ("name" if bad_name else "value")
+                    res.bump("failure:" + sig)
+                    if res.hist["failure:" + sig] <= 5:
+                        res.failures.append(Failure(signature="C10:" + sig, what=f"HTTP2Connection.request(headers={{{nm!r}: {value!r}}}) "
+                                                    f"handed the field ({fnb!r}, {fvb!r}) to the HTTP/2 layer", case=case))
         return [f"h2 {enc(name)} {enc(value)}"], [ans]
 
     def nontrivial(self, case, impl_out):
